@@ -16,7 +16,7 @@ from oracles import mlcl as mlref
 ASSUMPTIONS = [
     "the GEMINI gradient w.r.t. predictions is taken from the real GEMINI (its exactness is C02's job)",
     "forward-pass derivatives by central differences at two step sizes; parameters sitting on a ReLU kink are skipped and counted",
-    "tiny models (n<=6, d<=3, <=3 hidden units, <=3 clusters) with learning rates 0.1..0.3 so that parameters move away from initialisation",
+    "tiny models (n<=6, d<=3, <=5 hidden units, <=3 clusters; n, d, K, hidden pairwise distinct) with learning rates 0.1..0.3 so that parameters move away from initialisation",
 ]
 FAMILIES = ["LinearModel", "RIM", "KernelRIM", "MLPModel", "SparseLinearModel", "SparseMLPModel", "CategoricalModel", "Douglas"]
 ML, CL, FACTOR = [(0, 1)], [(2, 3), (1, 4)], 0.7
@@ -76,9 +76,10 @@ def train_case(case):
         kw["gemini"] = gemini
     if family != "CategoricalModel":
         kw["batch_size"] = bs
-    kw["n_clusters"] = 2 if data_id == 0 else 3
+    # all of n, d, K, hidden pairwise distinct so that an axis mix-up cannot hide behind a square shape
+    kw["n_clusters"] = 3 if data_id == 0 else 2
     if family in M.HAS_HIDDEN:
-        kw["n_hidden_dim"] = 2 if data_id == 0 else 3
+        kw["n_hidden_dim"] = 4 if data_id == 0 else 5
     if family == "Douglas":
         kw["n_cuts"] = 1 if data_id == 0 else (3 if variant else 2)
         kw["random_state"] = seed + variant
